@@ -25,12 +25,33 @@ import (
 	"verif/harness/ev"
 )
 
-var sessionClasses = []string{"empty", "1byte", "32bytes", "1kB", "ssid||idx"}
+var sessionClasses = []string{"nil", "empty", "1byte", "32bytes", "1kB", "ssid||idx", "ssid||idx"}
+
+// sessArg builds the session argument as a fresh slice (nil for the class "nil"): prover and verifier each get
+// their own, so no proof can depend on the identity of the slice it was made with.
+func sessArg(b B, cls string) []byte {
+	if cls == "nil" {
+		return nil
+	}
+	return b.Bytes()
+}
+
+// sessArgOther: the same byte string in its other spelling where one exists (nil <-> empty, spare capacity).
+func sessArgOther(b B, cls string) []byte {
+	switch cls {
+	case "nil":
+		return []byte{}
+	case "empty":
+		return nil
+	}
+	out := make([]byte, 0, len(b.Bytes())+17)
+	return append(out, b.Bytes()...)
+}
 
 func genSession(t *rapid.T) (B, string) {
 	cls := rapid.SampledFrom(sessionClasses).Draw(t, "session")
 	switch cls {
-	case "empty":
+	case "nil", "empty":
 		return bx(nil), cls
 	case "1byte":
 		return bx(drawBytes(t, "sess", 1, 1)), cls
@@ -88,7 +109,9 @@ func runC10Schnorr(c c10Schnorr) ev.Outcome {
 		out.Err, out.Sig = fmt.Errorf(f, a...), sig
 		return out
 	}
-	sess := c.Sess.Bytes()
+	sess := sessArg(c.Sess, c.SessC)
+	vsess := sessArgOther(c.Sess, c.SessC) // the verifier after the wire round trip gets the same bytes in another spelling
+	_ = vsess
 	x := c.X.Big()
 	if !c.V {
 		X := crypto.ScalarBaseMult(cv.EC, x)
@@ -96,7 +119,7 @@ func runC10Schnorr(c c10Schnorr) ev.Outcome {
 		if err != nil {
 			return fail("prover-error", "NewZKProof refused a valid witness: %v", err)
 		}
-		if !pf.Verify(sess, X) {
+		if !pf.Verify(sessArg(c.Sess, c.SessC), X) {
 			return fail("verify", "honest Schnorr proof rejected (x class %s)", c.XC)
 		}
 		// through the wire messages that carry it
@@ -130,7 +153,7 @@ func runC10Schnorr(c c10Schnorr) ev.Outcome {
 				return fail("wire", "UnmarshalZKProof: %v", err)
 			}
 		}
-		if !back.Verify(sess, X) {
+		if !back.Verify(vsess, X) {
 			return fail("verify-after-wire", "Schnorr proof rejected after the wire round trip")
 		}
 		if back.T.Cmp(pf.T) != 0 || !back.Alpha.Equals(pf.Alpha) {
@@ -161,7 +184,7 @@ func runC10Schnorr(c c10Schnorr) ev.Outcome {
 	if err != nil {
 		return fail("prover-error", "NewZKVProof refused a valid witness: %v", err)
 	}
-	if !pf.Verify(sess, V, R) {
+	if !pf.Verify(sessArg(c.Sess, c.SessC), V, R) {
 		return fail("verify", "honest Schnorr-V proof rejected")
 	}
 	if c.Curve == "secp256k1" {
@@ -178,7 +201,7 @@ func runC10Schnorr(c c10Schnorr) ev.Outcome {
 		if err != nil {
 			return fail("wire", "UnmarshalZKVProof: %v", err)
 		}
-		if !back.Verify(sess, V, R) {
+		if !back.Verify(vsess, V, R) {
 			return fail("verify-after-wire", "Schnorr-V proof rejected after the wire round trip")
 		}
 	}
@@ -316,7 +339,9 @@ func runC10Key(c c10Key) ev.Outcome {
 		out.Err, out.Sig = fmt.Errorf(f, a...), sig
 		return out
 	}
-	sess := c.Sess.Bytes()
+	sess := sessArg(c.Sess, c.SessC)
+	vsess := sessArgOther(c.Sess, c.SessC) // the verifier after the wire round trip gets the same bytes in another spelling
+	_ = vsess
 	switch c.Sys {
 	case "paillier":
 		pub := crypto.ScalarBaseMult(tss.S256(), c.PubK.Big())
@@ -346,7 +371,7 @@ func runC10Key(c c10Key) ev.Outcome {
 		if err != nil {
 			return fail("prover-error", "modproof.NewProof: %v", err)
 		}
-		if !pf.Verify(sess, pp.PaillierSK.N) {
+		if !pf.Verify(sessArg(c.Sess, c.SessC), pp.PaillierSK.N) {
 			return fail("verify", "honest mod proof rejected")
 		}
 		bzs := pf.Bytes()
@@ -354,7 +379,7 @@ func runC10Key(c c10Key) ev.Outcome {
 		if err != nil {
 			return fail("wire", "mod proof does not parse back: %v", err)
 		}
-		if !back.Verify(sess, pp.PaillierSK.N) {
+		if !back.Verify(vsess, pp.PaillierSK.N) {
 			return fail("verify-after-wire", "mod proof rejected after the wire round trip")
 		}
 		re := back.Bytes()
@@ -368,7 +393,7 @@ func runC10Key(c c10Key) ev.Outcome {
 		if err != nil {
 			return fail("prover-error", "facproof.NewProof: %v", err)
 		}
-		if !pf.Verify(sess, cv.EC, pp.PaillierSK.N, vp.NTildei, vp.H1i, vp.H2i) {
+		if !pf.Verify(sessArg(c.Sess, c.SessC), cv.EC, pp.PaillierSK.N, vp.NTildei, vp.H1i, vp.H2i) {
 			return fail("verify", "honest fac proof rejected")
 		}
 		bzs := pf.Bytes()
@@ -376,12 +401,12 @@ func runC10Key(c c10Key) ev.Outcome {
 		if err != nil {
 			return fail("wire", "fac proof does not parse back: %v", err)
 		}
-		if !back.Verify(sess, cv.EC, pp.PaillierSK.N, vp.NTildei, vp.H1i, vp.H2i) {
+		if !back.Verify(vsess, cv.EC, pp.PaillierSK.N, vp.NTildei, vp.H1i, vp.H2i) {
 			return fail("verify-after-wire", "fac proof rejected after the wire round trip")
 		}
 		// and swapped factor order (the prover may be given Q,P)
 		pf2, err := facproof.NewProof(sess, cv.EC, pp.PaillierSK.N, vp.NTildei, vp.H1i, vp.H2i, pp.PaillierSK.Q, pp.PaillierSK.P, rand.Reader)
-		if err != nil || !pf2.Verify(sess, cv.EC, pp.PaillierSK.N, vp.NTildei, vp.H1i, vp.H2i) {
+		if err != nil || !pf2.Verify(sessArg(c.Sess, c.SessC), cv.EC, pp.PaillierSK.N, vp.NTildei, vp.H1i, vp.H2i) {
 			return fail("verify", "honest fac proof (factors swapped) rejected")
 		}
 	}
@@ -440,7 +465,9 @@ func runC10MtA(c c10MtA) ev.Outcome {
 	if c.ASet != c.VSet {
 		pairC = "offdiag"
 	}
-	sess := c.Sess.Bytes()
+	sess := sessArg(c.Sess, c.SessC)
+	vsess := sessArgOther(c.Sess, c.SessC) // the verifier after the wire round trip gets the same bytes in another spelling
+	_ = vsess
 	m := c.M.Big()
 	cA, rA, err := pk.EncryptAndReturnRandomness(rand.Reader, m)
 	if err != nil {
@@ -495,12 +522,12 @@ func runC10MtA(c c10MtA) ev.Outcome {
 			if err != nil {
 				return fail("prover-error", "ProveBob: %v", err)
 			}
-			if !pf.Verify(sess, cv.EC, pk, vp.NTildei, vp.H1i, vp.H2i, cA, c2) {
+			if !pf.Verify(sessArg(c.Sess, c.SessC), cv.EC, pk, vp.NTildei, vp.H1i, vp.H2i, cA, c2) {
 				return fail("verify", "honest Bob proof rejected (x %s, y %s)", c.XC, c.YC)
 			}
 			bzs := pf.Bytes()
 			back, err := mta.ProofBobFromBytes(bzs[:])
-			if err != nil || !back.Verify(sess, cv.EC, pk, vp.NTildei, vp.H1i, vp.H2i, cA, c2) {
+			if err != nil || !back.Verify(vsess, cv.EC, pk, vp.NTildei, vp.H1i, vp.H2i, cA, c2) {
 				return fail("verify-after-wire", "Bob proof rejected after the wire round trip: %v", err)
 			}
 		} else {
@@ -509,12 +536,12 @@ func runC10MtA(c c10MtA) ev.Outcome {
 			if err != nil {
 				return fail("prover-error", "ProveBobWC: %v", err)
 			}
-			if !pf.Verify(sess, cv.EC, pk, vp.NTildei, vp.H1i, vp.H2i, cA, c2, X) {
+			if !pf.Verify(sessArg(c.Sess, c.SessC), cv.EC, pk, vp.NTildei, vp.H1i, vp.H2i, cA, c2, X) {
 				return fail("verify", "honest Bob-WC proof rejected (x %s, y %s)", c.XC, c.YC)
 			}
 			bzs := pf.Bytes()
 			back, err := mta.ProofBobWCFromBytes(cv.EC, bzs[:])
-			if err != nil || !back.Verify(sess, cv.EC, pk, vp.NTildei, vp.H1i, vp.H2i, cA, c2, X) {
+			if err != nil || !back.Verify(vsess, cv.EC, pk, vp.NTildei, vp.H1i, vp.H2i, cA, c2, X) {
 				return fail("verify-after-wire", "Bob-WC proof rejected after the wire round trip: %v", err)
 			}
 		}
@@ -529,3 +556,100 @@ func TestC10MtA(t *testing.T) {
 
 var _ = common.ModInt
 var _ = paillier.ProofIters
+
+// ---------------------------------------------------------------- session buffers reused across calls
+//
+// A caller may keep one scratch buffer for "ssid || index" and rewrite it in place between proofs (that is
+// what append(ssid, idx...) does when ssid has spare capacity). A proof must depend on the bytes of the
+// session at the time of the call only: several proofs made back-to-back from one rewritten buffer, then
+// each verified under a fresh copy of its own session.
+
+type c10Reuse struct {
+	Curve    string
+	Sys      []string // per step: schnorr | schnorr-v | fac | mod
+	Sessions []B      // same length each
+	VerifyAt []bool   // verify right after proving (true) or only at the end (false)
+	Set      int
+}
+
+func genC10Reuse(t *rapid.T) c10Reuse {
+	c := c10Reuse{Curve: rapid.SampledFrom([]string{"secp256k1", "ed25519"}).Draw(t, "curve"), Set: rapid.IntRange(0, 4).Draw(t, "set")}
+	n := rapid.IntRange(2, 4).Draw(t, "steps")
+	l := rapid.SampledFrom([]int{1, 31, 32, 33, 64}).Draw(t, "len")
+	for i := 0; i < n; i++ {
+		c.Sys = append(c.Sys, rapid.SampledFrom([]string{"schnorr", "schnorr", "schnorr-v", "fac", "mod"}).Draw(t, "sys"))
+		c.Sessions = append(c.Sessions, bx(drawBytes(t, "sess", l, l)))
+		c.VerifyAt = append(c.VerifyAt, rapid.IntRange(0, 3).Draw(t, "verifyNow") == 0)
+	}
+	return c
+}
+
+func runC10Reuse(c c10Reuse) ev.Outcome {
+	cv := getCurve(c.Curve)
+	out := ev.Outcome{Label: fmt.Sprintf("session-buffer-reuse %s steps=%v verify-between=%v", c.Curve, c.Sys, c.VerifyAt), Nontrivial: true}
+	fail := func(sig, f string, a ...interface{}) ev.Outcome {
+		out.Err, out.Sig = fmt.Errorf(f, a...), sig
+		return out
+	}
+	pp := preParams()[c.Set]
+	vp := preParams()[(c.Set+1)%5]
+	buf := make([]byte, len(c.Sessions[0].Bytes()), len(c.Sessions[0].Bytes())+8)
+	var verifiers []func() bool
+	for i, sys := range c.Sys {
+		copy(buf, c.Sessions[i].Bytes()) // rewritten in place
+		own := c.Sessions[i].Bytes()     // what the verifier will use: a fresh copy of this step's session
+		var v func() bool
+		switch sys {
+		case "schnorr":
+			x := add(randBelow(add(cv.Q, -1)), 1)
+			X := crypto.ScalarBaseMult(cv.EC, x)
+			pf, err := schnorr.NewZKProof(buf, x, X, rand.Reader)
+			if err != nil {
+				return fail("prover-error", "NewZKProof: %v", err)
+			}
+			v = func() bool { return pf.Verify(own, X) }
+		case "schnorr-v":
+			x, l := add(randBelow(add(cv.Q, -1)), 1), add(randBelow(add(cv.Q, -1)), 1)
+			R := crypto.ScalarBaseMult(cv.EC, add(randBelow(add(cv.Q, -1)), 1))
+			V, err := R.ScalarMult(x).Add(crypto.ScalarBaseMult(cv.EC, l))
+			if err != nil {
+				out.Skip = true
+				return out
+			}
+			pf, err := schnorr.NewZKVProof(buf, V, R, x, l, rand.Reader)
+			if err != nil {
+				return fail("prover-error", "NewZKVProof: %v", err)
+			}
+			v = func() bool { return pf.Verify(own, V, R) }
+		case "fac":
+			pf, err := facproof.NewProof(buf, cv.EC, pp.PaillierSK.N, vp.NTildei, vp.H1i, vp.H2i, pp.PaillierSK.P, pp.PaillierSK.Q, rand.Reader)
+			if err != nil {
+				return fail("prover-error", "facproof.NewProof: %v", err)
+			}
+			v = func() bool { return pf.Verify(own, cv.EC, pp.PaillierSK.N, vp.NTildei, vp.H1i, vp.H2i) }
+		default:
+			pf, err := modproof.NewProof(buf, pp.PaillierSK.N, pp.PaillierSK.P, pp.PaillierSK.Q, rand.Reader)
+			if err != nil {
+				return fail("prover-error", "modproof.NewProof: %v", err)
+			}
+			v = func() bool { return pf.Verify(own, pp.PaillierSK.N) }
+		}
+		if c.VerifyAt[i] {
+			if !v() {
+				return fail("reuse-verify", "step %d (%s): honest proof made from a rewritten session buffer rejected under its own session (steps %v)", i, sys, c.Sys)
+			}
+		}
+		verifiers = append(verifiers, v)
+	}
+	for i, v := range verifiers {
+		if !v() {
+			return fail("reuse-verify", "step %d (%s): honest proof made from a rewritten session buffer rejected under its own session at the end (steps %v, verified in between %v)", i, c.Sys[i], c.Sys, c.VerifyAt)
+		}
+	}
+	return out
+}
+
+func TestC10SessionBufferReuse(t *testing.T) {
+	r := ev.New(t, "C10")
+	ev.Drive(t, r, genC10Reuse, runC10Reuse)
+}
